@@ -48,6 +48,7 @@ def build_graph(blocks=False):
     class S(SF.SpecSet):
         r = SF.RegistryPoint(filterable=True)
         plain = SF.RegistryPoint(filterable=False)
+        t = SF.RegistryPoint(filterable=True)
         if blocks:
             q = SF.RegistryPoint(filterable=True)
 
@@ -73,6 +74,13 @@ def build_graph(blocks=False):
     Cf.__name__ = Cf.__qualname__ = "Cf"
     Cc = combiner(Pc)(Cf)
     g = {"R": S.r, "I1": I1.r, "I2": I2.r, "P": Pc, "C": Cc, "plain": S.plain, "blocks": blocks}
+    if not blocks:
+        # a combiner that depends on a parser and, directly, on a second filterable spec: filters added through it reach both specs
+        def C2f(p, t):
+            return p
+        C2f.__name__ = C2f.__qualname__ = "C2f"
+        g["T"] = S.t
+        g["C2"] = combiner(Pc, S.t)(C2f)
     if blocks:
         # implementations assembled from the factory's unnamed building blocks (all simple_file objects carry one and the same name),
         # directly and below another wrapper: a provider is created for the block, so the block's look-up is what decides its content
@@ -86,8 +94,8 @@ def build_graph(blocks=False):
     return g
 
 
-TARGETS = ["R", "I1", "P", "C"]
-LOOKUPS = ["R", "I1", "I2"]
+TARGETS = ["R", "I1", "P", "C", "C2"]
+LOOKUPS = ["R", "I1", "I2", "T"]
 PATS = ["f1", "f2", "f3"]
 BUDGETS = [1, 2, 10000]
 
@@ -99,6 +107,10 @@ Q_SIDE = ("Q", "I3q", "H", "B3", "B4")
 
 def applies(target, lookup):
     """does a filter registered on `target` belong to the effective set of `lookup` (statement's meaning)?"""
+    if target == "C2":
+        return lookup not in Q_SIDE      # through a combiner on the parser of R and on the spec T itself: both specs
+    if lookup == "T":
+        return False
     if target in ("R", "P", "C"):
         return lookup not in Q_SIDE      # on the spec, or through a parser / combiner depending on it: every implementation of it
     if target == "Q":
@@ -301,7 +313,7 @@ def make_kept(n, nf):
 # ------------------------------------------------------------------ O2b: the same on real text, filters with regex metacharacters
 META_FILTERS = ["a.b", "x+", "(a", "a|b", "^a", "b$", "[a", "a\\", "a*", "?b", "-a", "--"]
 TEXT_ALPHA = "ab.x+(|^$[\\*?-"
-TEXT_PATHS = ["filter_content", "clean_content", "apply_filters"]
+TEXT_PATHS = ["filter_content", "clean_content", "apply_filters", "input_data_list"]
 
 
 def make_kept_text(nlines, maxlen):
@@ -323,6 +335,16 @@ def make_kept_text(nlines, maxlen):
             cl = CL.Cleaner(K.Cfg(obfuscate=False), {}, "h.example.org")
             cl.obfuscate["password"] = None
             out = cl.clean_content(list(lines), allowlist=dict((f, 10000) for f in flts))
+        elif which == "input_data_list":
+            # the test helper integration tests feed spec content with (content given as a list of lines)
+            from insights.tests import InputData
+            with REG:
+                g = build_graph()
+                for f in flts:
+                    F.add_filter(g["R"], f)
+                data = InputData("c07")
+                data.add(g["R"], list(lines))
+                out = list(data.data[g["R"]].content)
         else:
             with REG:
                 g = build_graph()
@@ -621,6 +643,14 @@ def _native(case):
         elif case["path"] == "clean_content":
             cl = CL.Cleaner(K.Cfg(obfuscate=False), {}, "h.example.org")
             out = cl.clean_content(list(lines), allowlist=dict((f, 10000) for f in flts))
+        elif case["path"] == "input_data_list":
+            from insights.tests import InputData
+            g = build_graph()
+            for f in flts:
+                F.add_filter(g["R"], f)
+            data = InputData("c07")
+            data.add(g["R"], list(lines))
+            out = list(data.data[g["R"]].content)
         else:
             g = build_graph()
             for f in flts:
